@@ -52,7 +52,7 @@ def mutate(rng, data):
     """-> (kind, bytes).  One targeted corruption."""
     try:
         e = Elf(data)
-    except (ValueError, struct.error):
+    except (ValueError, struct.error, OverflowError, IndexError):
         return "bytes", _flip(rng, data, 4)
     ops = ["sh-field", "sh-field", "sh-field", "sym-field", "sym-field", "hash", "gnu-hash", "versym", "verdef", "verneed", "dynamic",
            "dwarf-info", "dwarf-abbrev", "dwarf-str", "dwarf-line", "ehdr", "bytes", "truncate", "strtab", "dwarf-info", "dwarf-info"]
